@@ -41,7 +41,8 @@ PROPS = {
     "C03": dict(theorems=["C03_engine_computes_semantics", "C03_leaf_is_coercion", "C03_documented_coercions", "C03_unnamed_fields_untouched", "C03_slice_keeps_length_and_order", "C03_pointer_allocates", "C03_absent_pointer_stays_nil"], cone=ENGINE_CONE + ["Model/Coerce.v", "Proofs/ExactP.v"], rule=ENGINE_RULE,
                 families=[eng("engine", "C03", 1200, 20000, ["dest", "panic"]),
                           eng("catching", "C05", 600, 10000, ["dest", "panic"]),
-                          dict(name="fe", family="fe", profile="fe", quick=700, thorough=10000, tags=["dest", "panic"])]),   # the input representations of the front ends: lists of one entry, blank entries, []-suffixed names   # destinations next to nodes that catch: a leaf holds the coercion of its own input),
+                          dict(name="fe", family="fe", profile="fe", quick=700, thorough=10000, tags=["dest", "panic"]),   # the input representations of the front ends: lists of one entry, blank entries, []-suffixed names
+                          sat("helpers", "helpers", 500, 6000, ["fields"], shard=300)]),   # a schema names the fields it was given, not those of schemas derived from it later (fields it does not name are never written)   # destinations next to nodes that catch: a leaf holds the coercion of its own input),
     "C04": dict(theorems=["C04_parse_absent_iff", "C04_falsy_values_are_present", "C04_validate_absent_examples", "C04_absent_default", "C04_absent_required", "C04_absent_optional", "C04_slice_absent_required", "C04_slice_absent_optional", "C04_ptr_absent_notnil", "C04_ptr_absent_optional", "C04_engine_computes_semantics"], cone=ENGINE_CONE + ["Proofs/AbsentP.v"], rule=ENGINE_RULE,
                 families=[eng("engine", "C04", 1200, 20000, ["nil", "issues", "dest", "calls", "panic"]),
                           # Required / Optional / Default / Catch called in every order on one schema
@@ -49,7 +50,9 @@ PROPS = {
                           # what a front end delivers for a key that is there: a list of one blank entry is a list, a blank scalar is absent
                           dict(name="fe", family="fe", profile="fe", quick=700, thorough=10000, tags=["nil", "issues", "dest", "panic"])]),
     "C05": dict(theorems=["C05_catch_own_node", "C05_catch_is_local", "C05_elements_are_independent", "C05_engine_computes_semantics"], cone=ENGINE_CONE + ["Proofs/Indep.v", "Proofs/CatchP.v"], rule=ENGINE_RULE,
-                families=[eng("engine", "C05", 1200, 20000, ["nil", "issues", "dest", "panic"])]),
+                families=[eng("engine", "C05", 1200, 20000, ["nil", "issues", "dest", "panic"]),
+                          # Catch next to the other modifiers, called in every order, on every primitive kind
+                          dict(name="builder", family="builder", profile="default", quick=700, thorough=12000, shard=150, tags=["nil", "issues", "dest", "panic"])]),
     "C06": dict(theorems=["C06_try_provider_never_panics", "C06_lookup_never_panics", "C06_field_name_never_panics", "C06_parse_struct_never_panics",
                           "C06_engine_total_on_all_data", "C06_legacy_named_map_panics", "C06_legacy_unexported_field_panics", "C06_legacy_long_key_panics", "C06_promoted_field_lookup_never_panics", "C06_promoted_behind_nil_is_absent", "C06_legacy_nil_embedded_pointer_panics", "C06_legacy_path_agrees_without_empty_segments", "C06_legacy_empty_key_below_a_key_panics"],
                 cone=["Model/Dyn.v", "Proofs/DynP.v"] + ENGINE_CONE,
@@ -150,7 +153,9 @@ PROPS = {
                           "C20_time_after", "C20_time_before", "C20_time_eq"],
                 cone=["Model/Preds.v", "Proofs/PredsP.v", "Proofs/EmailP.v"],
                 rule="single-test schemas for every built-in of every type; subjects at n-1, n, n+1, all 256 single bytes for the character classes, class-edge characters, multi-byte and invalid UTF-8, equal instants in three zones +-1ns, NaN/Inf/-0 and nextafter neighbours, near-miss UUIDs and e-mail addresses (every position perturbed, label lengths 61..64), slices of strings, ints and pointers; plus random; distinct = distinct (test, parameter) pairs",
-                families=[sat("preds", "preds", 7000, 30000, ["pred"])]),
+                families=[sat("preds", "preds", 7000, 30000, ["pred"]),
+                          # the verdict of a test is its predicate wherever the node stands: next to catching siblings, inside wide structs
+                          eng("placed", "C01s", 500, 8000, ["nil", "issues", "panic"])]),
 }
 
 # what each check assumes or trusts beyond the common trusted base (hypotheses of the headline theorems,
